@@ -405,6 +405,22 @@ def rule_split_order(ctx, cfg, F):
                     R.violate("%s:collection-order" % f.path, "the sender does not collect channels before regions", f.path, f.loc(reads[0][0]), config=cfg)
                 iters = []
         n += len(iters)
+        # every element contributes its descriptor: a push that an iteration can go round (`if fd >= 0 { fds.push(fd) }`) makes the descriptor list shorter than the
+        # list of indices the payload refers to -- every later endpoint arrives as its neighbour
+        for pb, pt in f.calls():
+            if strip_generics(callee_name(pt)) != "std::vec::Vec::push" or "i32" not in " ".join(pt.get("generics", [])):
+                continue
+            hs = [h for h in f.loop_headers() if pb in f.natural_loop(h)]
+            if not hs:
+                continue
+            h = min(hs, key=lambda x: len(f.natural_loop(x)))
+            loop = f.natural_loop(h)
+            latches = [x for x in loop if h in f.succ(x)]
+            if latches and not all(f.dominates(pb, x) for x in latches):
+                R.violate("%s:collection-skips-elements" % f.path, "an iteration of a descriptor collection loop can go round the push: the descriptors sent no longer correspond one to one "
+                          "to the endpoints the payload refers to by index", f.path, f.loc(pb), config=cfg)
+            else:
+                R.ok("every iteration of the collection loop pushes its descriptor", f.loc(pb), cfg)
         if bad:
             R.violate("%s:collection-reorders" % f.path, "the descriptor collection loops reorder the list", f.path, f.loc(bad[0]), config=cfg)
         elif len(iters) >= 2:
@@ -1957,6 +1973,42 @@ def _upvar_origin(F, f, root, depth=0):
                         out.add((parent, r))
                 return parent, {x[1] for x in out} if all(x[0] is parent for x in out) else {x[1] for x in out}
     return None, None
+
+
+_FORK_DISTINCT = ("std::time::Duration::subsec_nanos", "std::time::Duration::subsec_micros", "std::time::Duration::as_nanos", "std::time::Duration::as_micros",
+                  "libc::getpid", "std::process::id", "libc::gettid", "libc::getrandom", "libc::clock_gettime")
+
+
+def rule_shm_name(ctx, cfg, F):
+    R = ctx.rule("SHM-NAME", "the name a shared-memory object is created under (shm_open with O_EXCL, asserted to succeed) is built from a per-process counter and from something that "
+                 "differs between a process and the children it forks within the same second -- a sub-second clock reading, an uncached process id or a random value: the counter and a "
+                 "cached pid are copied by fork, so without it parent and child ask for the same name and the loser's region creation panics")
+    n = 0
+    for f in sorted(F.fns.values(), key=lambda x: x.path):
+        if f.file.endswith("test.rs") or not f.path.startswith("platform::unix"):
+            continue
+        creates = [b for b, t in f.calls() if strip_generics(callee_name(t)) in ("platform::unix::create_shmem", "libc::shm_open")]
+        fmts = [(b, t) for b, t in f.calls() if strip_generics(callee_name(t)).startswith("core::fmt::rt::Argument::new_")]
+        if not creates or not fmts:
+            continue
+        n += 1
+        tr = Tracer(f)
+        ids = set()
+        for b, t in fmts:
+            for r in tr.roots_of_operand(t["args"][0]):
+                if r.kind == "call":
+                    ids.add(strip_generics(r.id))
+                elif r.kind == "static":
+                    ids.add("static:" + str(r.id))
+        counter = any("fetch_add" in i for i in ids)
+        distinct = sorted(i for i in ids if i in _FORK_DISTINCT or "uuid" in i.lower() or "rand" in i.lower())
+        if counter and distinct:
+            R.ok("%s: the object name combines a per-process counter with %s" % (f.path, ", ".join(x.split("::")[-1] for x in distinct)), f.loc(creates[0]), cfg)
+        else:
+            R.violate("%s:name-not-fork-distinct" % strip_generics(f.path), "the shared-memory object name is built from %s: nothing in it differs between a process and a child forked in the same second "
+                      "(the counter and a cached pid are inherited), so concurrent region creation in parent and child collides on O_EXCL and panics" % (sorted(x.split("::")[-1] for x in ids) or "constants only"),
+                      f.path, f.loc(creates[0]), config=cfg)
+    R.count("named_objects[%s]" % cfg, n)
 
 
 def rule_buf_fresh(ctx, cfg, F):
